@@ -323,6 +323,13 @@ def pathAccL (keep : Acc) : List T → Option (Option Frac)
     | none => pathAccL keep cs
 end
 
+/-- what every driver op parses its tree with: `parseTree`, and additionally the tree must not name a node id twice
+    (node identity in the code).  A line that fails the guard is answered `bad-op`. -/
+def checkedTree (toks : List String) : Option (T × List String) :=
+  match parseTree toks with
+  | some (t, rest) => if (ids t).Nodup then some (t, rest) else none
+  | none => none
+
 /-- the record of a node -/
 def head (t : T) : Nat × Option Nat × Option Frac × Option String := (t.id, t.taxon, t.len, t.label)
 
